@@ -175,16 +175,24 @@ func Call(f func(), budget time.Duration) (res CallResult, dump string, pan any)
 	}()
 	start := time.Now()
 	consecutive := 0
+	samples, spinSamples, spinDump := 0, 0, ""
 	for {
 		select {
 		case p := <-done:
 			return Returned, "", p
 		case <-time.After(5 * time.Millisecond):
 		}
-		if _, ok := Settle(30 * time.Millisecond); ok {
+		gs, ok := Settle(30 * time.Millisecond)
+		if ok {
 			consecutive++
 		} else {
 			consecutive = 0
+		}
+		// livelock evidence: a goroutine busy in the library's spinlock
+		samples++
+		if sp := spinning(gs); sp != "" {
+			spinSamples++
+			spinDump = sp
 		}
 		if consecutive >= 4 && time.Since(start) >= 250*time.Millisecond {
 			select {
@@ -202,10 +210,30 @@ func Call(f func(), budget time.Duration) (res CallResult, dump string, pan any)
 			return Hung, b.String(), nil
 		}
 		if time.Since(start) > budget {
+			// Not a deadline verdict: f has not returned, and on (nearly) every one of the many samples
+			// taken over the whole budget a goroutine was busy inside the library's spinlock - it is not
+			// waiting for anything that could still happen, it burns a core waiting for a lock that is
+			// never released (livelock). Reported like a hang, with the spinning goroutine as witness.
+			if samples >= 40 && spinSamples*10 >= samples*9 && budget >= 5*time.Second {
+				return Hung, spinDump, nil
+			}
 			return TimedOut, "", nil
 		}
 		time.Sleep(20 * time.Millisecond)
 	}
+}
+
+// spinning returns the stacks of goroutines that are running or runnable inside the library's
+// spinlock (MutexWithSpinlock.Lock is a busy loop).
+func spinning(gs []G) string {
+	var b strings.Builder
+	for _, g := range gs {
+		if (strings.HasPrefix(g.State, "running") || strings.HasPrefix(g.State, "runnable")) && strings.Contains(g.Stack, "xsync.(*MutexWithSpinlock).Lock") {
+			b.WriteString(g.Stack)
+			b.WriteString("\n\n")
+		}
+	}
+	return b.String()
 }
 
 var frameRe = regexp.MustCompile(`github\.com/samber/ro[^\s(]*?\.((?:\(\*?[A-Za-z0-9_]+(?:\[\.\.\.\])?\)\.)?[A-Za-z0-9_]+)`)
@@ -220,7 +248,10 @@ func BlockedSite(dump string) string {
 			continue
 		}
 		st := m[2]
-		if !(strings.HasPrefix(st, "sync.Mutex.Lock") || strings.HasPrefix(st, "chan") || strings.HasPrefix(st, "select") || strings.HasPrefix(st, "semacquire") || strings.HasPrefix(st, "sync.")) {
+		if (strings.HasPrefix(st, "running") || strings.HasPrefix(st, "runnable")) && strings.Contains(blk, "xsync.(*MutexWithSpinlock).Lock") {
+			st = "spinlock" // livelock witness of Call
+		}
+		if !(st == "spinlock" || strings.HasPrefix(st, "sync.Mutex.Lock") || strings.HasPrefix(st, "chan") || strings.HasPrefix(st, "select") || strings.HasPrefix(st, "semacquire") || strings.HasPrefix(st, "sync.")) {
 			continue
 		}
 		for _, line := range strings.Split(blk, "\n") {
